@@ -48,6 +48,9 @@ def args_probe(mode):
     problems = []
     import hashlib
     digests = []
+    # a definition built before anything else in this probe ... (compared at the end)
+    exec("def fz(a=1, c=3):\n    Out.kr(0, SinOsc.kr(c) * a)\n", ns)
+    fresh_z = bytes(SynthDef('pz', ns['fz']).as_bytes())
     vs = {'bright': {'c': 7}, 'dark': {'c': 1}, 'wide': {'d': 0.5}, 'x': {'a': 2}, 'long_name': {'c': 9, 'a': 3}}
     digests.append(hashlib.sha1(bytes(SynthDef('pv', ns['fa'], None, None, vs).as_bytes())).hexdigest())
     for rates in ([0.5, 0.25, None, 0.125], [None, 'kr', 0.5, 0.25], [0.1, 0.1]):
@@ -106,7 +109,183 @@ def args_probe(mode):
         if repr(objs()) != before:
             problems.append(f'{fn.__name__}: building changed caller-owned objects used in the graph function: {before} -> {repr(objs())[:200]}')
         digests.append(hashlib.sha1(builds[0]).hexdigest())
+    # ... and again after the library has been used: definitions built with default arguments whose
+    # variants / metadata the caller filled in afterwards must not leak into later definitions
+    try:
+        used = SynthDef('py', ns['fz'])
+        used.variants['alt'] = {'c': 9}
+        used.metadata['specs'] = {'a': [0, 1]}
+        used.metadata['note'] = 'x'
+    except Exception as e:
+        problems.append(f'filling variants/metadata of a built definition raised {type(e).__name__}: {e}')
+    again_z = bytes(SynthDef('pz', ns['fz']).as_bytes())
+    if again_z != fresh_z:
+        problems.append(f'a definition built with default arguments after earlier use of the library (another definition\'s '
+                        f'variants and metadata were filled in) differs from the same build before that use: '
+                        f'{len(again_z)} vs {len(fresh_z)} bytes')
+    digests.append(hashlib.sha1(fresh_z).hexdigest())
     return problems + ['DIGESTS ' + ' '.join(digests)]
+
+
+def _threaded_phases(payload, cases, out, nthreads):
+    import io, sys
+    from sc3.synth.synthdef import SynthDef
+    from sc3.synth.synthdesc import SynthDesc
+    from sc3.synth.ugens.inout import Out
+    results = [None] * len(cases)
+    errors = []
+    # a definition with a long control table: its description is read (SynthDesc reader, which
+    # also enters the build context) by a reader thread while the builder threads build
+    ns = {'Out': Out}
+    exec('def big(a=' + repr(tuple(range(1, 801))) + '):\n    Out.kr(0, a[0])\n', ns)
+    big_raw = bytes(SynthDef('big', ns['big']).as_bytes())
+    stop = threading.Event()
+    reads = [0]
+
+    def reader():
+        try:
+            while not stop.is_set():
+                SynthDesc._read_stream(io.BytesIO(big_raw), keep_defs=(reads[0] % 2 == 0))
+                reads[0] += 1
+        except Exception as e:
+            errors.append(f'reader: {type(e).__name__}: {e}')
+    old_si = sys.getswitchinterval()
+    sys.setswitchinterval(5e-5)
+    rt = threading.Thread(target=reader)
+    rt.start()
+
+    import time as _time
+    deadline = _time.time() + payload.get('thread_seconds', 6)
+
+    def worker(k):
+        try:
+            for i in range(k, min(len(cases), payload.get('thread_cases', 10**9)), nthreads):
+                if _time.time() > deadline:
+                    break
+                if cases[i].get('poison') and i % 2:
+                    c01.build_program(cases[i]['poison'], residue_check=False)
+                results[i] = c01.build_program(cases[i]['prog'], residue_check=False)['canon']
+        except Exception as e:      # harness failure, reported
+            errors.append(f'{type(e).__name__}: {e}')
+    ts = [threading.Thread(target=worker, args=(k,)) for k in range(nthreads)]
+    for t in ts: t.start()
+    for t in ts: t.join()
+    stop.set(); rt.join()
+    # second concurrent phase, builders only, with rendez-vous points: whenever all builders have
+    # finished a build and none has started the next, nothing is being built, so the global
+    # current definition must be None and the lock free
+    samples = []
+
+    def sample():
+        from sc3.base import main as _libsc3
+        samples.append(_libsc3.main._current_synthdef is None)
+    bar = threading.Barrier(nthreads, action=sample)
+
+    def worker2(k):
+        try:
+            for rnd in range(12):
+                # several builds per round, so that constructors start while other threads build
+                for j in range(2 + (k + rnd) % 3):
+                    i = (k + (3 * rnd + j) * nthreads) % len(cases)
+                    # (no description read here: the reader itself clears the global and would mask a residue)
+                    c01.build_program(cases[i]['prog'], residue_check=False, desc=False)
+                bar.wait(timeout=60)
+        except Exception as e:
+            errors.append(f'barrier phase: {type(e).__name__}: {e}')
+            try: bar.abort()
+            except Exception: pass
+    ts2 = [threading.Thread(target=worker2, args=(k,)) for k in range(nthreads)]
+    for t in ts2: t.start()
+    for t in ts2: t.join()
+    out[0]['barrier_current_none'] = samples
+    # third concurrent phase: the same builds with a scheduling delay injected at the build lock:
+    # a proxy around main._def_build_lock hands the processor to the other threads right after
+    # the lock is acquired and right after it is released (delays a correct implementation
+    # cannot observe; they make the windows around the critical section wide)
+    from sc3.base import main as _libsc3
+
+    class DelayLock:
+        def __init__(self, inner):
+            self.inner = inner
+
+        def __enter__(self):
+            r = self.inner.__enter__(); _time.sleep(0.0005); return r
+
+        def __exit__(self, *a):
+            r = self.inner.__exit__(*a); _time.sleep(0.003); return r
+
+        def acquire(self, *a, **k):
+            return self.inner.acquire(*a, **k)
+
+        def release(self):
+            self.inner.release(); _time.sleep(0.003)
+
+        def __getattr__(self, n):
+            return getattr(self.inner, n)
+    delayed = [None] * len(cases)
+    real_lock = _libsc3.main._def_build_lock
+    _libsc3.main._def_build_lock = DelayLock(real_lock)
+    try:
+        def worker3(k):
+            try:
+                for i in list(range(k, len(cases), nthreads))[:payload.get('delay_cases', 10)]:
+                    delayed[i] = c01.build_program(cases[i]['prog'], residue_check=False, desc=False)['canon']
+            except Exception as e:
+                errors.append(f'delay phase: {type(e).__name__}: {e}')
+        ts3 = [threading.Thread(target=worker3, args=(k,)) for k in range(nthreads)]
+        for t in ts3: t.start()
+        for t in ts3: t.join()
+    finally:
+        _libsc3.main._def_build_lock = real_lock
+    for i, r in enumerate(out):
+        r['delayed'] = delayed[i]
+    # a build that takes long (slow graph function) while another thread wants to build: the
+    # second build waits, however long that is, and both come out as when built alone
+    from sc3.synth.ugens.oscillators import SinOsc
+    slow_s = payload.get('slow_seconds', 2.6)
+
+    def mk_slow(sec):
+        def slow():
+            a = SinOsc.ar(440)
+            b = SinOsc.ar(441)
+            _time.sleep(sec)
+            Out.ar(0, a * b)
+        return slow
+
+    def fast():
+        Out.ar(0, SinOsc.ar(220) * 0.5)
+    try:
+        ref_slow = bytes(SynthDef('slow', mk_slow(0)).as_bytes())
+        ref_fast = bytes(SynthDef('fast', fast).as_bytes())
+        got = {}
+
+        def ta():
+            try: got['slow'] = bytes(SynthDef('slow', mk_slow(slow_s)).as_bytes())
+            except Exception as e: got['slow'] = f'{type(e).__name__}: {e}'
+
+        def tb():
+            _time.sleep(0.15)
+            try: got['fast'] = bytes(SynthDef('fast', fast).as_bytes())
+            except Exception as e: got['fast'] = f'{type(e).__name__}: {e}'
+        th = [threading.Thread(target=ta), threading.Thread(target=tb)]
+        for t in th: t.start()
+        for t in th: t.join()
+        probs = []
+        for k, ref in (('slow', ref_slow), ('fast', ref_fast)):
+            if got.get(k) != ref:
+                g = got.get(k)
+                probs.append(f'{k} definition built while the other thread was building: '
+                             + (g if isinstance(g, str) else f'{len(g)} bytes') + f', built alone: {len(ref)} bytes')
+        out[0]['slow_build'] = probs
+    except Exception as e:
+        errors.append(f'slow-build phase: {type(e).__name__}: {e}')
+    sys.setswitchinterval(old_si)
+    out[0]['desc_reads_during_builds'] = reads[0]
+    for i, r in enumerate(out):
+        r['threaded'] = results[i]
+    if errors:
+        out[0]['thread_errors'] = errors
+    out[0]['residue_after_threads'] = c01.residue()
 
 
 def run(payload):
@@ -151,122 +330,9 @@ def run(payload):
     # 3. the same programs from several threads at once
     nthreads = payload.get('threads', 0)
     if nthreads:
-        import io, sys
-        from sc3.synth.synthdef import SynthDef
-        from sc3.synth.synthdesc import SynthDesc
-        from sc3.synth.ugens.inout import Out
-        results = [None] * len(cases)
-        errors = []
-        # a definition with a long control table: its description is read (SynthDesc reader, which
-        # also enters the build context) by a reader thread while the builder threads build
-        ns = {'Out': Out}
-        exec('def big(a=' + repr(tuple(range(1, 801))) + '):\n    Out.kr(0, a[0])\n', ns)
-        big_raw = bytes(SynthDef('big', ns['big']).as_bytes())
-        stop = threading.Event()
-        reads = [0]
-
-        def reader():
-            try:
-                while not stop.is_set():
-                    SynthDesc._read_stream(io.BytesIO(big_raw), keep_defs=(reads[0] % 2 == 0))
-                    reads[0] += 1
-            except Exception as e:
-                errors.append(f'reader: {type(e).__name__}: {e}')
-        old_si = sys.getswitchinterval()
-        sys.setswitchinterval(5e-5)
-        rt = threading.Thread(target=reader)
-        rt.start()
-
-        import time as _time
-        deadline = _time.time() + payload.get('thread_seconds', 6)
-
-        def worker(k):
-            try:
-                for i in range(k, min(len(cases), payload.get('thread_cases', 10**9)), nthreads):
-                    if _time.time() > deadline:
-                        break
-                    if cases[i].get('poison') and i % 2:
-                        c01.build_program(cases[i]['poison'], residue_check=False)
-                    results[i] = c01.build_program(cases[i]['prog'], residue_check=False)['canon']
-            except Exception as e:      # harness failure, reported
-                errors.append(f'{type(e).__name__}: {e}')
-        ts = [threading.Thread(target=worker, args=(k,)) for k in range(nthreads)]
-        for t in ts: t.start()
-        for t in ts: t.join()
-        stop.set(); rt.join()
-        # second concurrent phase, builders only, with rendez-vous points: whenever all builders have
-        # finished a build and none has started the next, nothing is being built, so the global
-        # current definition must be None and the lock free
-        samples = []
-
-        def sample():
-            from sc3.base import main as _libsc3
-            samples.append(_libsc3.main._current_synthdef is None)
-        bar = threading.Barrier(nthreads, action=sample)
-
-        def worker2(k):
-            try:
-                for rnd in range(12):
-                    # several builds per round, so that constructors start while other threads build
-                    for j in range(2 + (k + rnd) % 3):
-                        i = (k + (3 * rnd + j) * nthreads) % len(cases)
-                        # (no description read here: the reader itself clears the global and would mask a residue)
-                        c01.build_program(cases[i]['prog'], residue_check=False, desc=False)
-                    bar.wait(timeout=60)
-            except Exception as e:
-                errors.append(f'barrier phase: {type(e).__name__}: {e}')
-                try: bar.abort()
-                except Exception: pass
-        ts2 = [threading.Thread(target=worker2, args=(k,)) for k in range(nthreads)]
-        for t in ts2: t.start()
-        for t in ts2: t.join()
-        out[0]['barrier_current_none'] = samples
-        # third concurrent phase: the same builds with a scheduling delay injected at the build lock:
-        # a proxy around main._def_build_lock hands the processor to the other threads right after
-        # the lock is acquired and right after it is released (delays a correct implementation
-        # cannot observe; they make the windows around the critical section wide)
-        from sc3.base import main as _libsc3
-
-        class DelayLock:
-            def __init__(self, inner):
-                self.inner = inner
-
-            def __enter__(self):
-                r = self.inner.__enter__(); _time.sleep(0.0005); return r
-
-            def __exit__(self, *a):
-                r = self.inner.__exit__(*a); _time.sleep(0.003); return r
-
-            def acquire(self, *a, **k):
-                return self.inner.acquire(*a, **k)
-
-            def release(self):
-                self.inner.release(); _time.sleep(0.003)
-
-            def __getattr__(self, n):
-                return getattr(self.inner, n)
-        delayed = [None] * len(cases)
-        real_lock = _libsc3.main._def_build_lock
-        _libsc3.main._def_build_lock = DelayLock(real_lock)
         try:
-            def worker3(k):
-                try:
-                    for i in list(range(k, len(cases), nthreads))[:payload.get('delay_cases', 10)]:
-                        delayed[i] = c01.build_program(cases[i]['prog'], residue_check=False, desc=False)['canon']
-                except Exception as e:
-                    errors.append(f'delay phase: {type(e).__name__}: {e}')
-            ts3 = [threading.Thread(target=worker3, args=(k,)) for k in range(nthreads)]
-            for t in ts3: t.start()
-            for t in ts3: t.join()
-        finally:
-            _libsc3.main._def_build_lock = real_lock
-        for i, r in enumerate(out):
-            r['delayed'] = delayed[i]
-        sys.setswitchinterval(old_si)
-        out[0]['desc_reads_during_builds'] = reads[0]
-        for i, r in enumerate(out):
-            r['threaded'] = results[i]
-        if errors:
-            out[0]['thread_errors'] = errors
-        out[0]['residue_after_threads'] = c01.residue()
+            _threaded_phases(payload, cases, out, nthreads)
+        except Exception as e:      # a plain definition of the harness itself no longer builds after the earlier builds
+            import traceback
+            out[0]['later_build_error'] = f'{type(e).__name__}: {e} @ ' + traceback.format_exc().strip().splitlines()[-3].strip()[:160]
     return out
